@@ -34,6 +34,7 @@ func VH_C18_closest() {
 	case 6: // target without header
 		t = []byte("ACG\n>t1\nGCG\n")
 	}
+	vRaceDetect()
 	vSchedExplore(vParam("DEV"))
 	w := &vCapture{}
 	var err error
